@@ -198,26 +198,32 @@ deriving DecidableEq, Repr
 /-- `dict` built from a column pair: the last line wins -/
 def lastWhere {α} (p : α → Bool) (l : List α) : Option α := (l.filter p).getLast?
 
+/-- `clusters[mut]` for one kept mutation -/
+def assignOne (cl : List CRow) (me : String × List Entry) : Except LoadErr (String × Nat) :=
+  match lastWhere (fun c => decide (c.mid = me.1)) cl with
+  | none => .error (.noCluster me.1)
+  | some c => .ok (me.1, c.cid)
+
+/-- one clustered data point: index, cluster id, the kept mutations summed into it -/
+def mkCluster (cl : List CRow) (op : Rat) (assigned : List (String × Nat)) (ic : Nat × Nat) : Cluster :=
+  { idx := ic.1, cid := ic.2,
+    members := (assigned.filter fun a => decide (a.2 = ic.2)).map (·.1),
+    size := (cl.filter fun c => decide (c.cid = ic.2)).length,
+    prob := match lastWhere (fun c => decide (c.cid = ic.2)) cl with
+            | none => op
+            | some c => resolveProb op c.prob }
+
+/-- `_create_clustered_data_arr`: clusters of the kept mutations in sorted cluster-id order -/
+def clustersOf (cl : List CRow) (op : Rat) (assigned : List (String × Nat)) : List Cluster :=
+  (enumFrom 0 (sortedDistinct natLe (assigned.map (·.2)))).map (mkCluster cl op assigned)
+
 def loadClustered (hasTC hasErr : Bool) (rows : List Row) (clRaw : List CRow) (op : Rat) :
     Except LoadErr (List String × List Cluster) :=
   match load hasTC hasErr rows with
   | .error e => .error e
   | .ok (samples, data) =>
-    let cl := dropDups [] clRaw
-    match mapE (fun (me : String × List Entry) =>
-        match lastWhere (fun c => decide (c.mid = me.1)) cl with
-        | none => .error (LoadErr.noCluster me.1)
-        | some c => .ok (me.1, c.cid)) data with
+    match mapE (assignOne (dropDups [] clRaw)) data with
     | .error e => .error e
-    | .ok assigned =>
-      let cids := sortedDistinct natLe (assigned.map (·.2))
-      let mk (ic : Nat × Nat) : Cluster :=
-        { idx := ic.1, cid := ic.2,
-          members := (assigned.filter fun a => decide (a.2 = ic.2)).map (·.1),
-          size := (cl.filter fun c => decide (c.cid = ic.2)).length,
-          prob := match lastWhere (fun c => decide (c.cid = ic.2)) cl with
-                  | none => op
-                  | some c => resolveProb op c.prob }
-      .ok (samples, (enumFrom 0 cids).map mk)
+    | .ok assigned => .ok (samples, clustersOf (dropDups [] clRaw) op assigned)
 
 end PhyModel.Loader
